@@ -20,6 +20,10 @@ func (d Directive) BodyError(msg string) *jerr.JApiError {
 }
 
 func (d Directive) BodyErrorIndex(msg string, i uint) *jerr.JApiError {
+	if !d.BodyCoords.IsSet() || d.BodyCoords.begin+bytes.Index(i) > d.BodyCoords.File().Content().LenIndex() {
+		// The index can't belong to the body of this directive.
+		return d.KeywordError(msg)
+	}
 	return d.makeError(msg, d.BodyCoords.File(), d.BodyCoords.begin+bytes.Index(i))
 }
 
